@@ -61,8 +61,13 @@ func (f *HTTP2FingerprintingFrames) Marshal(maxPriorityFrames uint) string {
 	buf.WriteString("|")
 
 	// WINDOW_UPDATE frame
-	// ‘00’ if the frame is not present
-	buf.WriteString(fmt.Sprintf("%02d|", f.WindowUpdateIncrement))
+	// ‘00’ if the frame is not present, otherwise the increment as is
+	// (not zero-padded: "%02d" would render increments 1..9 as 01..09)
+	if f.WindowUpdateIncrement == 0 {
+		buf.WriteString("00|")
+	} else {
+		buf.WriteString(fmt.Sprintf("%d|", f.WindowUpdateIncrement))
+	}
 
 	// PRIORITY frame
 	if l := len(f.Priorities); uint(l) < maxPriorityFrames {
